@@ -305,6 +305,9 @@ func (e *Engine) replay(id string, r Result, verif string) (string, bool) {
 	for i, p := range fn.Params {
 		lit, ok := e.goLiteral(model[cnames[i]], p.Type(), in)
 		if !ok {
+			if path, confirmed, handled := e.replayHeap(id, r, verif, rec); handled {
+				return path, confirmed
+			}
 			return e.writeReplayFile(id, r, verif, rec, fmt.Sprintf("parameter %s of type %s is outside the automatic replay subset (heap-shaped input)", cnames[i], p.Type())), false
 		}
 		argExprs = append(argExprs, lit)
